@@ -68,6 +68,7 @@ type Exec struct {
 	notes         map[string]bool
 	visited       map[*ssa.BasicBlock]bool // blocks of the unit's own function some path entered
 	deepSite      bool
+	exitLoops     []int        // loops being left (site loop <n> exit)
 	curCallee     string       // full name of the callee a "site call" assertion is being evaluated at
 	curSelect     *ssa.Select  // the select statement a "site select" assertion is being evaluated at
 	symObjs       map[int]bool // objects standing for the pointees of symbolic (input or havocked) pointers
@@ -376,6 +377,25 @@ func (x *Exec) push(st *State) {
 }
 
 func (x *Exec) enterBlock(st *State, fr *Frame, to *ssa.BasicBlock) {
+	// "site loop <n> exit assert e": e holds whenever loop n is left from inside its body (break, goto; not
+	// through the header condition, not into a block that only panics). A return inside the loop is a
+	// "site loop <n> return".
+	if x.contract != nil && x.contract.Directives["site"] != nil && len(st.frames) > 0 && fr == st.frames[0] && fr.block != nil && !st.dead {
+		var exited []int
+		for _, l := range x.loopsOf(fr.fn) {
+			if l.body[fr.block] && fr.block != l.header && !l.body[to] && !isPanicBlock(to) {
+				exited = append(exited, l.ord)
+			}
+		}
+		if len(exited) > 0 {
+			x.exitLoops = exited
+			x.siteAsserts(st, fr, "exit", "", nil)
+			x.exitLoops = nil
+			if st.dead {
+				return
+			}
+		}
+	}
 	fr.prev = fr.block
 	fr.block = to
 	fr.ip = 0
